@@ -113,6 +113,12 @@ fn check_raw_score(l1: u8, l2: u8, d: u32) -> Result<u32, String> {
 }
 
 fn check_cap(n: u8, l1: u8, l2: u8) -> Result<(), String> {
+    if l1 < 7 || l2 < 7 {
+        // documented as semantically invalid: "the result is implementation-defined" (and "may cause a panic in
+        // the future"), so nothing is demanded here; the call is still made so that the sanitizer-style builds see it
+        let _ = guarded(|| FuzzyHashCompareTarget::score_cap_on_block_hash_comparison(n, l1, l2));
+        return Ok(());
+    }
     let c = guarded(|| FuzzyHashCompareTarget::score_cap_on_block_hash_comparison(n, l1, l2))?;
     let border = FuzzyHashCompareTarget::LOG_BLOCK_SIZE_CAPPING_BORDER;
     if n < border {
@@ -226,7 +232,9 @@ pub fn run(_ctx: &Ctx) -> Report {
         for l1 in 0..=64u8 {
             for l2 in 0..=64u8 {
                 acc.evaluations += 1;
-                acc.nontrivial += 1;
+                if l1 >= 7 && l2 >= 7 {
+                    acc.nontrivial += 1;
+                }
                 if let Err(e) = check_cap(n as u8, l1, l2) {
                     acc.violation(
                         format!("cap n={} l1={} l2={}", n, l1, l2),
@@ -242,7 +250,7 @@ pub fn run(_ctx: &Ctx) -> Report {
     rep.set("exhaustive", true);
     rep.set(
         "rule",
-        "complete finite domains enumerated once each: all 2^32 u32 block sizes, all 256 u8 logs, all 31x31 log pairs, all (l1,l2,d) with 7<=l<=64 and d<=l1+l2-14, all (n,l1,l2) in 0..=31 x 0..=64 x 0..=64; every case is distinct by construction and non-trivial (it calls the library and compares with the definition)",
+        "complete finite domains enumerated once each: all 2^32 u32 block sizes, all 256 u8 logs, all 31x31 log pairs, all (l1,l2,d) with 7<=l<=64 and d<=l1+l2-14, all (n,l1,l2) in 0..=31 x 0..=64 x 0..=64 (the cap formula is demanded for l1,l2 >= 7 only: below 7 the documentation declares the result implementation-defined, those calls are made but nothing is compared); every case is distinct by construction; non-trivial = it calls the library and compares with the definition",
     );
     rep
 }
